@@ -139,18 +139,15 @@ pub fn claim(deps: DepsMut, info: MessageInfo) -> Result<Response, ContractError
                 }
             }
 
-            if epoch.claimed.is_empty() {
-                epoch.claimed = vec![Asset {
+            // an epoch can hold more than one asset (a remainder rolled over after the distribution
+            // asset was changed): add the reward to this asset's claimed entry, creating it if needed
+            epoch.claimed = asset::aggregate_assets(
+                epoch.claimed.clone(),
+                vec![Asset {
                     info: fee.info.clone(),
                     amount: reward,
-                }];
-            } else {
-                for claimed_fee in epoch.claimed.iter_mut() {
-                    if claimed_fee.info == fee.info {
-                        claimed_fee.amount = claimed_fee.amount.checked_add(reward)?;
-                    }
-                }
-            }
+                }],
+            )?;
 
             EPOCHS.save(deps.storage, &epoch.id.to_be_bytes(), &epoch)?;
         }
